@@ -278,3 +278,258 @@ Proof.
     apply (hinv_alloc_obj (w_dst (st_w st)) (objs_of st) pads sid sz m1 s1 a h); auto; rewrite Eh; reflexivity.
   - apply pool_ok_push; auto. intros _. rewrite Eh. reflexivity.
 Qed.
+
+(* ------------------------------------------------------------------ every step of the sub-language *)
+Lemma width_b_ok n : width_b n = true -> n = 1 \/ n = 2 \/ n = 4 \/ n = 8.
+Proof. unfold width_b. lia. Qed.
+
+Lemma sinv_same_segs st pads w2 :
+  sinv st pads -> bm_segs (w_dst w2) = bm_segs (w_dst (st_w st)) -> bm_arena (w_dst w2) = bm_arena (w_dst (st_w st)) ->
+  sinv (mkBSt w2 (st_h st)) pads.
+Proof.
+  intros [H P] E1 E2. split; [|exact P]. unfold objs_of. cbn [st_w st_h].
+  destruct H as [Hi Hsm Hns Hg Hin Hpd HdO HdP Hcr Hs].
+  assert (EM : forall i, mem (w_dst w2) i = mem (w_dst (st_w st)) i) by (intros i; unfold mem, get_seg; now rewrite E1).
+  assert (ED : bm_data (w_dst w2) = bm_data (w_dst (st_w st))) by (unfold bm_data; now rewrite E1).
+  constructor; auto; try (rewrite ED; auto).
+  - destruct Hi as [A B]. split; [unfold bmsg_wf; now rewrite E1|unfold arena_wf; now rewrite E1, E2].
+  - intros i. rewrite EM. apply Hsm.
+  - unfold nsegs. rewrite E1. exact Hns.
+Qed.
+
+(* geometry of struct handles *)
+Lemma struct_slots p : p_kind p = KStruct -> os_wf (p_size p) ->
+  slots p = map (fun a => (p_seg p, a)) (zseq (p_off p + DataSize (p_size p)) 8 (Z.to_nat (PointerCount (p_size p)))).
+Proof.
+  intros Ek (Hd & Hm & Hp). unfold slots, tgt_of. rewrite Ek. cbn [children].
+  replace (p_off p + 8 * (DataSize (p_size p) / 8)) with (p_off p + DataSize (p_size p)) by lia. reflexivity.
+Qed.
+
+Lemma struct_slot_in (ms : segs) p i : p_valid p = true -> good ms p -> seg_len ms (p_seg p) <= maxSegmentSize ->
+  p_kind p = KStruct -> 0 <= i < PointerCount (p_size p) ->
+  In (p_seg p, pointerAddress p i) (slots p).
+Proof.
+  intros Hv G Hsl Ek Hi. pose proof G as (Sh & _ & Hin & _). unfold shape_ok in Sh. rewrite Ek in Sh.
+  rewrite struct_slots by auto. apply in_map. unfold zseq. apply in_map_iff. exists (Z.to_nat i). split; [|apply in_seq; lia].
+  destruct Sh as (Hd & Hm & Hp). destruct (in_seg_elim _ _ _ _ Hin) as (G1 & G2 & G3 & G4 & G5).
+  rewrite pointerAddress_eq; try lia.
+  unfold obj_reg, obj_bytes in G4. rewrite Ek in G4. cbn [r_size] in G4.
+  assert (TS : totalSize (p_size p) = DataSize (p_size p) + 8 * PointerCount (p_size p)) by (unfold totalSize, pointerSize, u32; lia).
+  rewrite TS in G4. unfold padToWord, u32 in G4.
+  (* the struct lies inside an addressable segment *)
+  unfold maxSegmentSize in *. lia.
+Qed.
+
+Lemma struct_slots_after_data (ms : segs) p q : p_kind p = KStruct -> os_wf (p_size p) -> In q (slots p) ->
+  p_off p + DataSize (p_size p) <= snd q.
+Proof.
+  intros Ek W Hq. rewrite struct_slots in Hq by auto. apply in_map_iff in Hq. destruct Hq as (a & <- & Ha).
+  unfold zseq in Ha. apply in_map_iff in Ha. destruct Ha as (k & <- & _). cbn [snd]. lia.
+Qed.
+
+Lemma write_ptr_invalid_loc f strict w d o l src fc : p_valid src = false ->
+  write_ptr f strict w d o l src fc = write_ptr f strict w d o InDst src fc.
+Proof. intros Hv. destruct f; [reflexivity|]. unfold write_ptr. cbn [write_ptr_gen]. now rewrite Hv. Qed.
+
+Lemma ro_step_handles c ms hs rl o rs' v : ro_op o = true -> step c all_fixes ms (mkRS hs rl) o = (rs', v) -> rs_handles rs' = hs.
+Proof.
+  intros Hr. destruct o; try discriminate Hr; cbn [step]; try (intros E; inversion E; reflexivity).
+  destruct (walk _ _ _ _ _ _ _ _) as [t rl1]. intros E. inversion E. reflexivity.
+Qed.
+
+Theorem bstep_hinv e st pads o st' out :
+  sinv st pads -> sub_op o = true -> bstep e st o = (Some st', out) ->
+  nsegs (w_dst (st_w st')) < 4294967296 ->
+  exists pads', sinv st' pads'.
+Proof.
+  intros S Hop. pose proof S as [H P]. unfold bstep. destruct o; try discriminate Hop; cbv zeta.
+  - (* NewStruct *)
+    destruct (negb (valid_sid st sid)) eqn:EV.
+    { intros E _. injection E as <- _. exists pads. now apply sinv_push_null. }
+    assert (Vs : valid_sid st sid = true) by (destruct (valid_sid st sid); auto; discriminate).
+    unfold ctor, newStruct. destruct (negb (os_isValid (mkOS dsz pc))) eqn:EO; [discriminate|].
+    unfold os_isValid in EO. cbn [DataSize PointerCount] in *.
+    destruct (alloc (w_dst (st_w st)) sid _) as [[[m1 s1] a]| |] eqn:EA; cbn [bind]; try discriminate.
+    intros E Hns. injection E as <- _. cbn [hpush st_w w_dst w_set_dst] in Hns. exists pads.
+    cbn [sub_op] in Hop.
+    eapply (alloc_ctor st pads sid _ m1 s1 a); eauto.
+    + apply totalSize_nn.
+    + unfold shape_ok. cbn [p_kind p_size]. unfold os_wf, padToWord, u32. cbn [DataSize PointerCount]. lia.
+  - (* NewPrim *)
+    destruct (negb (valid_sid st sid)) eqn:EV.
+    { intros E _. injection E as <- _. exists pads. now apply sinv_push_null. }
+    assert (Vs : valid_sid st sid = true) by (destruct (valid_sid st sid); auto; discriminate).
+    unfold ctor, newPrimitiveList. destruct ((n <? 0) || (n >=? 536870912)) eqn:EN; [discriminate|].
+    destruct (alloc (w_dst (st_w st)) sid _) as [[[m1 s1] a]| |] eqn:EA; cbn [bind]; try discriminate.
+    intros E Hns. injection E as <- _. cbn [hpush st_w w_dst w_set_dst] in Hns. exists pads.
+    cbn [sub_op] in Hop.
+    assert (Hsz : sz = 0 \/ sz = 1 \/ sz = 2 \/ sz = 4 \/ sz = 8).
+    { destruct (sz =? 0) eqn:E0; [left; lia|right]. apply width_b_ok. cbn in Hop. exact Hop. }
+    assert (TU : timesUnchecked sz n = sz * n) by (unfold timesUnchecked, u32; nia).
+    eapply (alloc_ctor st pads sid _ m1 s1 a); eauto.
+    + rewrite TU. nia.
+    + unfold shape_ok. cbn [p_kind p_comp p_len p_bit p_size]. split; [reflexivity|]. split; [lia|].
+      right. split; [reflexivity|]. right. exists sz. split; [reflexivity|lia].
+    + rewrite list_alloc_eq; cbn [p_valid p_kind p_bit p_size p_len DataSize PointerCount]; auto; try lia.
+      unfold shape_ok. cbn [p_kind p_comp p_len p_bit p_size]. split; [reflexivity|]. split; [lia|].
+      right. split; [reflexivity|]. right. exists sz. split; [reflexivity|lia].
+  - (* NewBit *)
+    destruct (negb (valid_sid st sid)) eqn:EV.
+    { intros E _. injection E as <- _. exists pads. now apply sinv_push_null. }
+    assert (Vs : valid_sid st sid = true) by (destruct (valid_sid st sid); auto; discriminate).
+    unfold ctor, newBitList. destruct ((n <? 0) || (n >=? 536870912)) eqn:EN; [discriminate|].
+    destruct (alloc (w_dst (st_w st)) sid _) as [[[m1 s1] a]| |] eqn:EA; cbn [bind]; try discriminate.
+    intros E Hns. injection E as <- _. cbn [hpush st_w w_dst w_set_dst] in Hns. exists pads.
+    assert (Sh : shape_ok (mkPtr true s1 a n (mkOS 0 0) maxDepth KList false true false)).
+    { unfold shape_ok. cbn [p_kind p_comp p_len p_bit p_size]. split; [reflexivity|]. split; [lia|]. left. auto. }
+    eapply (alloc_ctor st pads sid _ m1 s1 a); eauto; try (unfold bitListSize, u32; lia); try (rewrite list_alloc_eq; auto).
+  - (* NewPList *)
+    destruct (negb (valid_sid st sid)) eqn:EV.
+    { intros E _. injection E as <- _. exists pads. now apply sinv_push_null. }
+    assert (Vs : valid_sid st sid = true) by (destruct (valid_sid st sid); auto; discriminate).
+    unfold ctor, newPointerList. destruct (times 8 n) as [total|] eqn:ET; [|discriminate].
+    destruct (alloc (w_dst (st_w st)) sid total) as [[[m1 s1] a]| |] eqn:EA; cbn [bind]; try discriminate.
+    intros E Hns. injection E as <- _. cbn [hpush st_w w_dst w_set_dst] in Hns. exists pads.
+    unfold times in ET. cbv zeta in ET.
+    destruct ((8 * n >? maxSegmentSize) || (8 * n <? 0)) eqn:EB; [discriminate|].
+    assert (total = 8 * n) by congruence. subst total. unfold maxSegmentSize in EB.
+    assert (Sh : shape_ok (mkPtr true s1 a n (mkOS 0 1) maxDepth KList false false false)).
+    { unfold shape_ok. cbn [p_kind p_comp p_len p_bit p_size]. split; [reflexivity|]. split; [lia|]. right. split; [reflexivity|]. left. reflexivity. }
+    eapply (alloc_ctor st pads sid _ m1 s1 a); eauto; try lia; try (rewrite list_alloc_eq; auto; cbn; lia).
+  - (* NewVoid *)
+    destruct (negb (valid_sid st sid)) eqn:EV.
+    { intros E _. injection E as <- _. exists pads. now apply sinv_push_null. }
+    assert (Vs : valid_sid st sid = true) by (destruct (valid_sid st sid); auto; discriminate).
+    apply valid_sid_range in Vs.
+    unfold newVoidList. destruct ((n <? 0) || (n >=? 536870912)) eqn:EN.
+    { intros E _. injection E as <- _. exists pads. now apply sinv_push_null. }
+    intros E Hns. injection E as <- _. exists pads.
+    set (h := mkPtr true sid 0 n (mkOS 0 0) maxDepth KList false false false).
+    assert (Sh : shape_ok h).
+    { unfold shape_ok, h. cbn [p_kind p_comp p_len p_bit p_size]. split; [reflexivity|]. split; [lia|].
+      right. split; [reflexivity|]. right. exists 0. split; [reflexivity|lia]. }
+    assert (OB : obj_bytes h = 0).
+    { rewrite list_alloc_eq; [|reflexivity|exact Sh|reflexivity]. unfold h. cbn [p_bit p_size p_len DataSize PointerCount]. lia. }
+    split; [|apply pool_ok_push; auto].
+    rewrite objs_of_push. cbn [p_valid h hpush st_w].
+    apply (hinv_add_obj (w_dst (st_w st)) (objs_of st) pads (w_dst (st_w st)) h); auto;
+      try apply keeps_refl; try apply (hi_inv _ _ _ H); try apply (hi_small _ _ _ H); try lia; try apply (hi_nsegs _ _ _ H).
+    + split; [exact Sh|]. pose proof (hi_nsegs _ _ _ H). split; [cbn; lia|]. split; [|cbn; lia].
+      unfold obj_reg. cbn [r_size]. rewrite OB. cbn [p_seg p_off h]. change (padToWord 0) with 0.
+      apply in_seg_intro; rewrite ?zlen_bm, ?seg_len_bm; try lia. apply zlen_nonneg.
+    + intros q Hq. unfold slots, tgt_of, h in Hq. cbn in Hq. destruct Hq.
+  - (* NewBytes *)
+    destruct (negb (valid_sid st sid)) eqn:EV.
+    { intros E _. injection E as <- _. exists pads. now apply sinv_push_null. }
+    assert (Vs : valid_sid st sid = true) by (destruct (valid_sid st sid); auto; discriminate).
+    cbn [sub_op] in Hop. pose proof (zlen_nonneg v) as Zv.
+    set (n := s32 (zlen v + (if nul then 1 else 0))).
+    assert (En : n = zlen v + (if nul then 1 else 0)) by (unfold n; apply s32_id; destruct nul; lia).
+    unfold ctor, newBytes. fold n. unfold newPrimitiveList.
+    destruct ((n <? 0) || (n >=? 536870912)) eqn:EN; [discriminate|].
+    destruct (alloc (w_dst (st_w st)) sid _) as [[[m1 s1] a]| |] eqn:EA; cbn [bind]; try discriminate.
+    cbn [p_seg p_off].
+    destruct (seg_write m1 s1 a v) as [m2| |] eqn:EW; cbn [bind]; try discriminate.
+    intros E Hns. injection E as <- _. cbn [hpush st_w w_dst w_set_dst] in Hns. exists pads.
+    set (h := mkPtr true s1 a n (mkOS 1 0) maxDepth KList false false false).
+    assert (Sh : shape_ok h).
+    { unfold shape_ok, h. cbn [p_kind p_comp p_len p_bit p_size]. split; [reflexivity|]. split; [lia|].
+      right. split; [reflexivity|]. right. exists 1. split; [reflexivity|lia]. }
+    assert (TU : timesUnchecked 1 n = n) by (unfold timesUnchecked, u32; lia).
+    assert (OB : obj_bytes h = n).
+    { rewrite list_alloc_eq; [|reflexivity|exact Sh|reflexivity]. unfold h. cbn [p_bit p_size p_len DataSize PointerCount]. lia. }
+    assert (W : wrote m1 m2 s1 a v).
+    { assert (Hz0 : 0 <= timesUnchecked 1 n) by (rewrite TU; lia).
+      apply seg_write_wrote; auto; [|lia].
+      destruct (alloc_keeps _ _ _ _ _ _ (hi_inv _ _ _ H) (valid_sid_range _ _ Vs) Hz0 EA) as (_ & _ & _ & X & _). lia. }
+    assert (N12 : nsegs m2 = nsegs m1) by (unfold nsegs; apply (wrote_nsegs _ _ _ _ _ W)).
+    assert (S1 : sinv (hpush st (w_set_dst (st_w st) m1) InDst h) pads).
+    { apply (alloc_ctor st pads sid (timesUnchecked 1 n) m1 s1 a h); auto; try (rewrite TU; lia); try lia; try reflexivity; try (rewrite OB, TU; reflexivity). }
+    destruct S1 as [H1 P1]. split; [|apply pool_ok_push; auto].
+    rewrite objs_of_push in *. cbn [p_valid h hpush st_w w_dst w_set_dst] in *.
+    apply (hinv_data_write m1 _ pads m2 h a v); auto.
+    + apply in_or_app. right. left. reflexivity.
+    + cbn [p_seg h]. destruct (hi_good _ _ _ H1 h ltac:(apply in_or_app; right; left; reflexivity)) as [_ (_ & X & _)]. cbn in X. lia.
+    + cbn [p_off h]. lia.
+    + cbn [p_off h]. unfold obj_reg. cbn [r_size]. rewrite OB. unfold padToWord, u32. destruct nul; lia.
+    + intros q Hq. unfold slots, tgt_of, h in Hq. cbn in Hq. destruct Hq.
+  - (* SetUint *)
+    destruct (hget st h) as [l p] eqn:EH. cbn [sub_op] in Hop.
+    unfold dset. destruct (set_in (st_w st) l _) as [w1| |] eqn:ES; intros E Hns; injection E as <- _;
+      try (exists pads; exact S).
+    exists pads.
+    apply andb_prop in Hop. destruct Hop as [Ho1 Ho2].
+    assert (Hoff : 0 <= off) by lia. assert (Hn : n = 1 \/ n = 2 \/ n = 4 \/ n = 8) by (apply width_b_ok; exact Ho2).
+    (* only a valid struct handle of the message under construction gets this far *)
+    assert (Hval : p_valid (as_struct p) = true).
+    { unfold set_in in ES. destruct l.
+      - unfold lift0, struct_set_uint, dataAddress in ES. destruct (negb (p_valid (as_struct p)) || _) eqn:EE; cbn [bind] in ES; [discriminate|].
+        destruct (p_valid (as_struct p)); auto; discriminate.
+      - unfold struct_set_uint, dataAddress in ES. destruct (negb (p_valid (as_struct p)) || _) eqn:EE; cbn [bind] in ES; [discriminate|].
+        destruct (p_valid (as_struct p)); auto; discriminate. }
+    assert (Eas : as_struct p = p /\ p_kind p = KStruct).
+    { unfold as_struct, is_struct in *. destruct (p_valid p && _) eqn:EE; [|discriminate Hval].
+      split; [reflexivity|]. destruct (p_kind p); auto; rewrite Bool.andb_false_r in EE; discriminate. }
+    destruct Eas as [Eas Ek]. rewrite Eas in *.
+    assert (HP : p = snd (hget st h)) by (rewrite EH; reflexivity).
+    destruct (hget_obj st pads h S ltac:(rewrite <- HP; exact Hval)) as (Hin & Hmem & Hl). rewrite <- HP in Hin. rewrite EH in Hl. cbn in Hl. subst l.
+    destruct (hi_good _ _ _ H p Hin) as [_ G]. pose proof G as (Sh & Gs & Gi & Go). unfold shape_ok in Sh. rewrite Ek in Sh.
+    destruct Sh as (Hd & Hm & Hp'). destruct (in_seg_elim _ _ _ _ Gi) as (G1 & G2 & G3 & G4 & G5).
+    assert (TS : totalSize (p_size p) = DataSize (p_size p) + 8 * PointerCount (p_size p)) by (unfold totalSize, pointerSize, u32; lia).
+    unfold obj_reg, obj_bytes in G3, G4. rewrite Ek in G3, G4. cbn [r_size] in G3, G4. rewrite TS in G3, G4.
+    assert (PW : padToWord (DataSize (p_size p) + 8 * PointerCount (p_size p)) = DataSize (p_size p) + 8 * PointerCount (p_size p)) by (unfold padToWord, u32; lia).
+    rewrite PW in G3, G4. rewrite seg_len_bm in G4. pose proof (hi_small _ _ _ H (p_seg p)) as Hsm. unfold maxSegmentSize in Hsm.
+    unfold set_in, lift0, struct_set_uint, dataAddress in ES.
+    destruct (negb (p_valid p) || (u32 (off + n) >? DataSize (p_size p))) eqn:EE; cbn [bind] in ES; [discriminate|].
+    destruct (addOffset (p_off p) off) as [addr|] eqn:EA; cbn [bind] in ES; [|discriminate].
+    apply addOffset_spec in EA. destruct EA as [EA1 EA2].
+    assert (Eu : u32 (off + n) = off + n) by (unfold u32; lia).
+    assert (Ead : addr = p_off p + off) by (subst addr; unfold u32; lia).
+    destruct (seg_write (w_dst (st_w st)) (p_seg p) addr _) as [m1| |] eqn:EW; cbn [bind] in ES; try discriminate.
+    apply Ok_inj in ES. subst w1.
+    assert (Ln : zlen (le_encode (Z.to_nat n) v) = n) by (apply zlen_le_encode; lia).
+    apply seg_write_wrote in EW; [|lia|rewrite Ln; lia].
+    split; [|exact P]. unfold objs_of. cbn [st_h st_w w_dst w_set_dst]. fold (objs_of st).
+    apply (hinv_data_write (w_dst (st_w st)) (objs_of st) pads m1 p addr (le_encode (Z.to_nat n) v)); auto; try lia.
+    + rewrite Ln. unfold obj_reg, obj_bytes. rewrite Ek. cbn [r_size]. rewrite TS, PW. lia.
+    + intros q Hq. rewrite Ln. pose proof (struct_slots_after_data (bm_data (w_dst (st_w st))) p q Ek (conj Hd (conj Hm Hp')) Hq). lia.
+  - (* SetBit *)
+    destruct (hget st h) as [l p] eqn:EH. cbn [sub_op] in Hop.
+    unfold dset. destruct (set_in (st_w st) l _) as [w1| |] eqn:ES; intros E Hns; injection E as <- _;
+      try (exists pads; exact S).
+    exists pads. assert (Hn0 : 0 <= n) by lia.
+    assert (Hval : p_valid (as_struct p) = true).
+    { unfold set_in in ES. destruct l.
+      - unfold lift0, struct_set_bit in ES. destruct (negb (p_valid (as_struct p) && _)) eqn:EE; [discriminate|].
+        destruct (p_valid (as_struct p)); auto; discriminate.
+      - unfold struct_set_bit in ES. destruct (negb (p_valid (as_struct p) && _)) eqn:EE; [discriminate|].
+        destruct (p_valid (as_struct p)); auto; discriminate. }
+    assert (Eas : as_struct p = p /\ p_kind p = KStruct).
+    { unfold as_struct, is_struct in *. destruct (p_valid p && _) eqn:EE; [|discriminate Hval].
+      split; [reflexivity|]. destruct (p_kind p); auto; rewrite Bool.andb_false_r in EE; discriminate. }
+    destruct Eas as [Eas Ek]. rewrite Eas in *.
+    assert (HP : p = snd (hget st h)) by (rewrite EH; reflexivity).
+    destruct (hget_obj st pads h S ltac:(rewrite <- HP; exact Hval)) as (Hin & Hmem & Hl). rewrite <- HP in Hin. rewrite EH in Hl. cbn in Hl. subst l.
+    destruct (hi_good _ _ _ H p Hin) as [_ G]. pose proof G as (Sh & Gs & Gi & Go). unfold shape_ok in Sh. rewrite Ek in Sh.
+    destruct Sh as (Hd & Hm & Hp'). destruct (in_seg_elim _ _ _ _ Gi) as (G1 & G2 & G3 & G4 & G5).
+    assert (TS : totalSize (p_size p) = DataSize (p_size p) + 8 * PointerCount (p_size p)) by (unfold totalSize, pointerSize, u32; lia).
+    unfold obj_reg, obj_bytes in G3, G4. rewrite Ek in G3, G4. cbn [r_size] in G3, G4. rewrite TS in G3, G4.
+    assert (PW : padToWord (DataSize (p_size p) + 8 * PointerCount (p_size p)) = DataSize (p_size p) + 8 * PointerCount (p_size p)) by (unfold padToWord, u32; lia).
+    rewrite PW in G3, G4. rewrite seg_len_bm in G4. pose proof (hi_small _ _ _ H (p_seg p)) as Hsm. unfold maxSegmentSize in Hsm.
+    unfold set_in, lift0, struct_set_bit in ES.
+    destruct (negb (p_valid p && (n <? u32 (DataSize (p_size p) * 8)))) eqn:EE; [discriminate|].
+    assert (Hnb : n < DataSize (p_size p) * 8) by (unfold u32 in EE; destruct (p_valid p); cbn in EE; [lia|discriminate]).
+    destruct (addOffset (p_off p) (bitOffset_offset n)) as [addr|] eqn:EA; [|discriminate].
+    apply addOffset_spec in EA. destruct EA as [EA1 EA2]. unfold bitOffset_offset in *.
+    assert (Ead : addr = p_off p + n / 8) by (subst addr; unfold u32; lia).
+    destruct (readUintN _ addr 1) as [b| |]; cbn [bind] in ES; try discriminate.
+    destruct (seg_write (w_dst (st_w st)) (p_seg p) addr _) as [m1| |] eqn:EW; cbn [bind] in ES; try discriminate.
+    apply Ok_inj in ES. subst w1.
+    apply seg_write_wrote in EW; [|lia|cbn; lia].
+    split; [|exact P]. unfold objs_of. cbn [st_h st_w w_dst w_set_dst]. fold (objs_of st).
+    apply (hinv_data_write (w_dst (st_w st)) (objs_of st) pads m1 p addr [set_bit_in b (n mod 8) v]); auto; try lia.
+    + change (zlen [set_bit_in b (n mod 8) v]) with 1. unfold obj_reg, obj_bytes. rewrite Ek. cbn [r_size]. rewrite TS, PW. lia.
+    + intros q Hq. change (zlen [set_bit_in b (n mod 8) v]) with 1.
+      pose proof (struct_slots_after_data (bm_data (w_dst (st_w st))) p q Ek (conj Hd (conj Hm Hp')) Hq). lia.
+  - admit_rest.
+Abort.
